@@ -45,7 +45,8 @@ def run_english(c):
                 shutdownEndsWithBid=sa.get("shutdownEndsWithBid", 0), shutdownEndsNoBid=sa.get("shutdownEndsNoBid", 0),
                 shutdownEndsSurplus=sa.get("shutdownEndsSurplus", 0),
                 crossAppRewardCalc=sc.get("crossAppRewardCalc", 0), crossAppMsgs=sc.get("crossAppMsgs", 0), wrongAssetMsgs=sc.get("wrongAssetMsgs", 0),
-                lsrChanges=sc.get("lsrChanges", 0), lsrChangesMulti=sc.get("lsrChangesMulti", 0), rewardDue=sc.get("rewardDue", 0),
+                lsrChanges=sc.get("lsrChanges", 0), lsrChangesMulti=sc.get("lsrChangesMulti", 0), rewardDue=sc.get("rewardDue", 0), surplusDueDrained=sc.get("surplusDueDrained", 0), surplusDueFunded=sc.get("surplusDueFunded", 0),
+                debtDueWithLockers=sc.get("debtDueWithLockers", 0), savingsDuringAuction=sc.get("savingsDuringAuction", 0),
                 creates=sc.get("creates", 0), deposits=sc.get("deposits", 0), withdraws=sc.get("withdraws", 0), closes=sc.get("closes", 0),
                 rewards=sc.get("rewards", 0), feeIn=sc.get("feeIn", 0), feeOut=sc.get("feeOut", 0), vaultConf=sc.get("vaultConf", 0),
                 interestPaid=sc.get("interestPaid", 0), penalties=sc.get("penalties", 0), twoApps=sc.get("twoApps", 0))
